@@ -50,13 +50,15 @@ def main():
         c = m["caught_by"]
         if k == "C11-1":
             st = "made harmless by a repair"
+        elif c.startswith("MISSED by the version before round 2"):
+            st = "missed in round 2, caught after strengthening"
         elif c.startswith("MISSED"):
             st = "missed first, caught after strengthening"
         elif "correspondence" in c and ("only" in c or "through the model correspondence" in c):
             st = "correspondence only"
         else:
             st = "caught"
-        rows.append((k, m["needs"], st, re.sub(r"^MISSED by the first version \((.*?)\); ", r"first version missed it (\1); ", c)))
+        rows.append((k, m["needs"], st, re.sub(r"^MISSED by the (?:first version|version before round 2)(?: \((.*?)\))?; ", lambda m: "missed at first" + (f" ({m.group(1)})" if m.group(1) else "") + "; ", c)))
     out.append("### 9.5 Seeded changes (independent sub-agents, property text only) and which checks catch them\n")
     out.append("Each directory `seeded/<id>-<n>/` holds `patch.diff`, `demo.py` (exit 0 on the clean tree, non-zero on the patched tree - confirmed "
                "by `harness/run_seeded.sh`, which applies the patch to a scratch worktree of `/repo`'s HEAD, runs the demo on both trees and runs "
@@ -71,7 +73,9 @@ def main():
                "What was strengthened after a miss: signed zeros in C12; exact-zero losses for RL in C09; below-only / above-only float32 "
                "histories in C02; aliasing moment calculators in C08; per-class restore sweep with several seeds in C05; 3-d arrays in C17; reused "
                "loss objects in C07; files and databases larger than a buffer / page cache in C06; a timed `join` as a sync point in C10; other-run "
-               "folders sharing rows with the new run in C04. The lesson repeated across them: generators must include the boundary of "
+               "folders sharing rows with the new run in C04; and after round 2: faulted traces in C09, empty other-layout folders in C04, in-place "
+               "previous commits in C06, non-float64 real data in C02, reused declaration arrays in C03, NaN losses and crash-and-resume "
+               "(Exception and KeyboardInterrupt flavours) in C05/C11, a parameter-mutating model and a >500-point history in C01. The lesson repeated across them: generators must include the boundary of "
                "*representation* (signed zero, exact zero, dtype, array rank, buffer size) and *object reuse* (the same loss / sampler / folder used "
                "twice), not only the boundary of the mathematical domain.\n")
 
